@@ -46,6 +46,9 @@ type c17Child struct {
 	errs       []string
 	earlyAck   []string
 	earlyRead  []string
+	closeFail  []string
+	closed     bool
+	closedErr  string
 	done       bool
 	doneErr    string
 	killedByUs bool
@@ -120,6 +123,13 @@ func c17RunChild(role, dir string, env []string, killAfterAcks int, wrap []strin
 			}
 		case "ERR":
 			out.errs = append(out.errs, strings.Join(f[1:], " "))
+		case "closefail":
+			if len(f) == 2 {
+				out.closeFail = append(out.closeFail, f[1])
+			}
+		case "closed":
+			out.closed = true
+			out.closedErr = strings.Join(f[1:], " ")
 		case "EARLYACK":
 			out.earlyAck = append(out.earlyAck, strings.Join(f[1:], " "))
 		case "EARLYREAD":
@@ -224,7 +234,14 @@ func (c *c17Ctx) c17MasterRound(s *c17Seq, round int, rnd *rand.Rand) bool {
 	}
 	kill, killAfter := "", 0
 	pick := rnd.IntN(10)
+	graceful := rnd.IntN(7) == 0
 	switch {
+	case graceful:
+		// graceful Engine.Close at a PRNG-chosen moment with writers in flight and a slowed-down
+		// binlog writer; the child dies right after Close returned
+		kill = "graceful_close"
+		env = append(env, fmt.Sprintf("VERIF_C17_CLOSE_AFTER=%d", 1+rnd.IntN(40)),
+			fmt.Sprintf("VERIF_DELAY=fsbinlog.loop.after_write:%d,fsbinlog.loop.after_fsync:%d,fsbinlog.loop.before_engine_commit:%d", 2000+rnd.IntN(40000), 2000+rnd.IntN(40000), 2000+rnd.IntN(40000)))
 	case pick < 2:
 		killAfter = 1 + rnd.IntN(quota)
 		kill = "random_instant"
@@ -245,7 +262,11 @@ func (c *c17Ctx) c17MasterRound(s *c17Seq, round int, rnd *rand.Rand) bool {
 		kill = h.name
 		env = append(env, fmt.Sprintf("VERIF_CRASH=%s:%d", h.name, 1+rnd.IntN(h.kmax)))
 	}
-	switch rnd.IntN(6) {
+	wid := rnd.IntN(6)
+	if graceful {
+		wid = -1
+	}
+	switch wid {
 	case 0:
 		// schedule widening: keep appended bytes longer in the writer's buffer / stretch the commit
 		env = append(env, fmt.Sprintf("VERIF_DELAY=fsbinlog.loop.after_write:%d,sqlite.commit.before:%d", 300+rnd.IntN(3000), rnd.IntN(2000)))
@@ -292,6 +313,16 @@ func (c *c17Ctx) c17MasterRound(s *c17Seq, round int, rnd *rand.Rand) bool {
 			c.w.Count("ctx_expired_do_failed", 1)
 		} else {
 			s.failed[id] = true
+		}
+	}
+	for _, id := range ch.closeFail {
+		s.failedDo[id] = true
+		c.w.Count("graceful_close.writes_refused", 1)
+	}
+	if ch.closed {
+		c.w.Count("graceful_close.children", 1)
+		if ch.closedErr != "<nil>" {
+			c.w.Count("graceful_close.close_error", 1)
 		}
 	}
 	for _, id := range ch.acks {
@@ -408,6 +439,13 @@ func (c *c17Ctx) c17Judge(s *c17Seq, ch *c17Child, db, kill string, killed bool,
 	if pre.offset < bl.off {
 		c.w.Count("db_behind_binlog", 1)
 	}
+	if ch.closed && pre.offset == bl.off {
+		c.w.Count("graceful_close.offset_at_binlog_end", 1)
+	} else if ch.closed && pre.offset < bl.off {
+		// counted, not judged: a Do that slipped in between the final COMMIT and the connection
+		// close leaves its event in the binlog and its row uncommitted (replayed at the next start)
+		c.w.Count("graceful_close.db_behind_binlog", 1)
+	}
 	for id := range pre.rows {
 		if s.failed[c17Short(id)] {
 			r.Violation("C17/failed-callback/row-present", "a row written by a callback that returned an error is in the database: "+c17Short(id), w2)
@@ -417,14 +455,14 @@ func (c *c17Ctx) c17Judge(s *c17Seq, ch *c17Child, db, kill string, killed bool,
 	}
 	for id := range pre.rows {
 		if s.failedDo[c17Short(id)] {
-			r.Violation("C17/failed-do/row-present", "a row of a write whose Do returned an error (request context expired) is in the database: "+c17Short(id), w2)
+			r.Violation("C17/failed-do/row-present", "a row of a write whose Do returned an error (request context expired or engine shutting down) is in the database: "+c17Short(id), w2)
 			ok = false
 			break
 		}
 	}
 	for _, e := range bl.evs {
 		if s.failedDo[c17Short(e.ID)] {
-			r.Violation("C17/failed-do/in-binlog", "the binlog holds the event of a write whose Do returned an error (request context expired): it is replayed after a restart: "+c17Short(e.ID), w2)
+			r.Violation("C17/failed-do/in-binlog", "the binlog holds the event of a write whose Do returned an error (request context expired or engine shutting down): it is replayed after a restart: "+c17Short(e.ID), w2)
 			ok = false
 			break
 		}
